@@ -134,6 +134,56 @@ func scenarios() []e3.Scenario {
 			},
 		})
 	}
+	// The reconnecting gauge under overlapping reconnect loops: the link of a Selected active
+	// connection is dropped, the re-dial is accepted and that link is dropped at once (the next
+	// loop can start before the previous one has returned from Start), every later dial is
+	// refused. At the end the connection is open and NotConnected with a loop sleeping in its
+	// backoff: Reconnecting() must be positive; it is never negative at any scheduling point.
+	{
+		var minG int64
+		out = append(out, e3.Scenario{
+			Name: "active-redial-dropped-at-once", Horizon: 3 * time.Second,
+			Setup: func(e *e3.Env) {
+				minG = 0
+				o := e2.Opts{Active: true, Conn: []hsms.ConnOption{
+					hsms.WithT3(3 * time.Second), hsms.WithT5(4 * time.Second), hsms.WithT6(2 * time.Second), hsms.WithT7(4 * time.Second), hsms.WithT8(time.Second),
+					hsms.WithReconnectBackoff(100*time.Millisecond, 4.0), hsms.WithWriteTimeout(time.Second), hsms.WithCloseTimeout(5 * time.Second),
+				}}
+				e.W.NewConn(o)
+				if err := e.W.Establish(o); err != nil {
+					panic(err)
+				}
+				e.W.Net.Plan = func(attempt int) sim.DialAnswer {
+					if attempt <= 1 {
+						return sim.Accept // 0: the initial dial, 1: the first re-dial
+					}
+					return sim.Refuse
+				}
+				pc := e.W.Peer
+				e.Thread("peer", func() {
+					_ = pc.Close()
+					if p2 := e.W.Net.WaitPeer(2 * time.Second); p2 != nil {
+						_ = p2.Close() // the re-established link is lost at once
+					}
+				})
+			},
+			Monitor: func(e *e3.Env) {
+				if g := e.W.C.Metrics().Reconnecting(); g < minG {
+					minG = g
+				}
+			},
+			Finish: func(e *e3.Env) {
+				m := e.W.C.Metrics()
+				e.Note("state=%v reconnecting=%d reconnects=%d dials=%d", e.W.C.State(), m.Reconnecting(), m.Reconnects(), e.W.Net.DialCount())
+				if minG < 0 {
+					e.Violate("reconnecting:negative", "the reconnecting gauge was %d at a scheduling point", minG)
+				}
+				if st := e.W.C.State(); st == hsms.NotConnectedState && m.Reconnecting() <= 0 {
+					e.Violate("reconnecting:zero-while-loop-runs", "the connection is open and NotConnected (dials so far: %d, every further one refused) with a reconnect loop in its backoff, but Reconnecting() is %d", e.W.Net.DialCount(), m.Reconnecting())
+				}
+			},
+		})
+	}
 	return out
 }
 
